@@ -47,6 +47,11 @@ func prodCampaign(rc *RunCtx, chains, steps int) {
 					gs.TokenMessengerList[i].Address = append(Structured32(0x2d), 0xee)
 				}
 			}
+			if k%2 == 1 { // initialised the way a node does it: through the JSON entry point, integers spelled as bare numbers
+				if bz, err := GenesisJSON(gs, 3); err == nil {
+					cfg.GenesisJSON = bz
+				}
+			}
 			if k%4 == 2 { // stray funds sit in the module account (anyone can send coins to its address)
 				cfg.Funded[moduleBech()] = big.NewInt(1000)
 			}
